@@ -20,6 +20,7 @@ type SolverCfg struct {
 	OutDir   string
 	Parallel int
 	KeepAll  bool
+	Thorough bool
 }
 
 var heapSymRe = regexp.MustCompile(`(?:H_[^ ()]+|v_H_[^ ()]+|v_apparr![0-9]+|v_cparr![0-9]+|v_m_h![0-9]+)`)
@@ -265,7 +266,7 @@ func solveOne(ob *Obligation, cfg SolverCfg) {
 		st, out, secs := runSolver(solvers[0], fname, 3*time.Second)
 		ob.Seconds = secs
 		ob.Output = fmt.Sprintf("[%s: %s in %.2fs] %s", solvers[0].name, st, secs, firstLines(out, 3))
-		if st != "unsat" && st != "sat" && ob.Group == "" {
+		if st != "unsat" && st != "sat" && ob.Group == "" && cfg.Thorough {
 			// second opinion with a different seed and the older z3
 			for _, alt := range []solver{{"z3-new/seed1", func(ms int, f string) []string {
 				return []string{"z3-new", fmt.Sprintf("-T:%d", (ms+999)/1000), "smt.random_seed=1", f}
